@@ -7,7 +7,7 @@ use neurons::tensor::{Data, Shape, Tensor};
 
 pub fn meta(_ctx: &Ctx) -> Meta {
     Meta {
-        rule: "ops {add,sub,mul,hadamard*scalar,div-by-scalar,mean over k=1..4 (also on operands near +-f32::MAX whose sum leaves the range while their mean does not)} x ranks 1-D..4-D (nested lists for add/div) x all shapes with extents in {1,2,3} x operand valuations covering ALL 169 ordered pairs over V={0,-0,1,-1,0.1,3,-7.5,2^-149,1e-30,1e30,MAX,5,1e-5} (cycled through the elements with every offset), plus operands that are entirely within 1e-5 of 1 or of 0 without being all ones / zeros, x scalars {1,0.5,2,-4,3,7,0.1,1e-39,3e38}; every ordered pair of different shapes of the lattice must be refused by add/sub/mul/hadamard/mean; product/dot/transpose on integer data (r,c <= 4, and 1x33, 33x1, 4x40, 64x10, 10x65, 100x100, 3x257); the element-wise operations also on a vector of 1000, 40x40, 3x65, 2x33x5, 3x3x17x2; the free functions hadamard3d and pad3d on all CxHxW with extents <= 3; clamp over V x intervals incl. degenerate. Oracle: the single IEEE f32 operation per element, bit-exact. Non-trivial = case with >=2 elements or a shape-mismatch pair".into(),
+        rule: "ops {add,sub,mul,hadamard*scalar,div-by-scalar,mean over k=1..4 (also on operands near +-f32::MAX whose sum leaves the range while their mean does not)} x ranks 1-D..4-D (nested lists for add/div) x all shapes with extents in {1,2,3} x operand valuations covering ALL 169 ordered pairs over V={0,-0,1,-1,0.1,3,-7.5,2^-149,1e-30,1e30,MAX,5,1e-5} (cycled through the elements with every offset), plus operands that are entirely within 1e-5 of 1 or of 0 without being all ones / zeros, x scalars {1,0.5,2,-4,3,7,0.1,1e-39,3e38}; every ordered pair of different shapes of the lattice (and the empty vector against every shape, both ways round) must be refused by add/sub/mul/hadamard/mean; product/dot/transpose on integer data (r,c <= 4, and 1x33, 33x1, 4x40, 64x10, 10x65, 100x100, 3x257); the element-wise operations also on a vector of 1000, 40x40, 3x65, 2x33x5, 3x3x17x2; the free functions hadamard3d and pad3d on all CxHxW with extents <= 3; clamp over V x intervals incl. degenerate. Oracle: the single IEEE f32 operation per element, bit-exact. Non-trivial = case with >=2 elements or a shape-mismatch pair".into(),
         bound: "extents <= 3 per axis, k <= 4; complete within the bound".into(),
         exhaustive: true,
         assumptions: vec!["hadamard: any association of a*b*scalar is accepted".into(), "mean: bit-exact on integer operands (exact sum, one rounding of the quotient); on general operands within the any-order summation bound eps*(k+2)*sum|x|/(k+1) of the f64 value".into()],
@@ -540,6 +540,10 @@ pub fn cases() -> Vec<Kv> {
                 out.push(Kv::new().put("op", "mismatch").put("a", sname(a)).put("b", sname(b)));
             }
         }
+        // the empty vector (the library's own placeholder for "nothing yet") against every shape, both ways round
+        let empty = vec![0usize];
+        out.push(Kv::new().put("op", "mismatch").put("a", sname(&empty)).put("b", sname(a)));
+        out.push(Kv::new().put("op", "mismatch").put("a", sname(a)).put("b", sname(&empty)));
     }
     for c in 1..=3usize {
         for h in 1..=3usize {
